@@ -7,9 +7,10 @@ cp $WT/SEED/patch.diff $WT/SEED/demo.py $OUT/ 2>/dev/null
 cp $WT/SEED/meta.json $OUT/agent_meta.json 2>/dev/null
 cd $WT
 PYTHONPATH=$WT/src /venv/bin/python SEED/demo.py > $OUT/demo_with.log 2>&1; RC_WITH=$?
-git stash push -q -- src
+# (no git stash here: the stash is shared by all worktrees of a repository, parallel evaluations would swap changes)
+git apply -R SEED/patch.diff || { echo "$ID cannot reverse patch"; exit 2; }
 PYTHONPATH=$WT/src /venv/bin/python SEED/demo.py > $OUT/demo_without.log 2>&1; RC_WITHOUT=$?
-git stash pop -q
+git apply SEED/patch.diff || { echo "$ID cannot re-apply patch"; exit 2; }
 PYTHONPATH=$WT/src /venv/bin/python -m pytest -q -p no:cacheprovider --timeout=900 -x > $OUT/tests_with.log 2>&1; RC_TESTS=$?
 cd /verif
 VF_SRC=$WT/src ./check $ID --tier ${TIER:-quick} --no-evidence > $OUT/check_with.log 2>&1; RC_CHECK=$?
